@@ -153,6 +153,12 @@ def build_inputs(ctx, res):
                     R = G.random_rotation(rng) if k != 1 else G.AXIS_PERMS[rng.randrange(24)]
                     t = [rng.uniform(-500, 500) for _ in range(3)]
                     inputs.append(("rigid:%s" % name, G.moved(rs, R, t), m))
+                # file order different from the (chain, number, icode) order: reversed and shuffled residue lists
+                if not big:
+                    inputs.append(("reversed:%s" % name, list(reversed(rs)), m))
+                    sh = list(rs)
+                    rng.shuffle(sh)
+                    inputs.append(("shuffled-residues:%s" % name, sh, m))
                 if big:
                     inputs.append(("jitter0.05:%s" % name, G.jittered(rng, nts, 0.05), m))
                 elif small or not ctx.quick:
@@ -162,7 +168,10 @@ def build_inputs(ctx, res):
                         inputs.append(("thin:%s" % name, G.thinned(rng, rs), m))
     # unmodified two-residue cuts of reported pairs (thinning down to the pair itself)
     for ri, rj in templates[: ctx.pick(120, 2000)]:
-        inputs.append(("cut", [ri, rj] if ri < rj else [rj, ri], None))
+        lo, hi = (ri, rj) if ri < rj else (rj, ri)
+        inputs.append(("cut", [lo, hi], None))
+        if rng.random() < 0.34:
+            inputs.append(("cut-reversed", [hi, lo], None))
     n_place = ctx.pick(600, 20000)
     for tag, rs in G.placements(rng, templates, n_place):
         inputs.append(("place:" + tag.split(":")[0].rstrip("+-.0123456789e"), rs, None))
